@@ -362,7 +362,7 @@ def run_check(pid: str, tier: str, seed: int, replay: str | None = None) -> int:
         return 1
     if inconclusive:
         for r in inconclusive[:5]:
-            print(f"INCONCLUSIVE property={pid} reason={r[:400]}")
+            print(f"INCONCLUSIVE property={pid} reason={r if len(r) <= 900 else r[:200] + ' ... ' + r[-700:]}")
         return 2
     if evals == 0 or len(keys) < 2:
         print(f"INCONCLUSIVE property={pid} reason=observed nothing")
